@@ -177,126 +177,120 @@ static void row_begin(const curve_t* c, const char* op, const char* al, int rep)
 }
 static void row_end(const long long* row, size_t n) { jIntArr("row", row, n); jEnd(); }
 
-/* pairs: add / sub in J, AJ (mixed), AA forms for every ordered pair under the admissible aliasings */
+/* pairs: add / sub in J, AJ (mixed), AA forms for every ordered pair under the admissible aliasings.
+   One call: op 0..5 = addJ subJ addAJ subAJ addAA subAA; al 0..3 = none, c=a, c=b, a=b (same buffer, needs i == j);
+   rep = representation of projective inputs.  Returns 1 and the affine result in out[2n], 0 for O, -9 if not applicable.
+   Fresh buffers of exactly the documented sizes for every call. */
+static const char* POPS[6] = { "addJ", "subJ", "addAJ", "subAJ", "addAA", "subAA" };
+static const char* PALS[4] = { "none", "c=a", "c=b", "a=b" };
+static int pair_call(const curve_t* c, int op, int al, int rep, int i, int j, word* out)
+{
+	const size_t n = c->n; const ec_o* ec = c->ec; void* st = ecstk(c);
+	const int mixed = op == 2 || op == 3, aa = op >= 4;
+	const size_t na = aa ? 2 * n : 3 * n;                   /* words of operand a */
+	const size_t nb = (mixed || aa) ? 2 * n : 3 * n;        /* words of operand b */
+	const size_t nc = aa ? 2 * n : 3 * n;
+	word *A, *B, *C; int r = 0; bool_t ok = TRUE;
+	if (aa && (rep || i == 0)) return -9;
+	if ((mixed || aa) && j == 0) return -9;
+	if (al == 3 && (mixed || i != j)) return -9;            /* a projective, b affine: never the same buffer */
+	A = WALLOC(al == 1 ? (na > nc ? na : nc) : na);
+	B = al == 3 ? A : WALLOC(al == 2 ? (nb > nc ? nb : nc) : nb);
+	C = (al == 0 || al == 3) ? WALLOC(nc) : (al == 1 ? A : B);
+	if (aa) wwCopy(A, AFF(c, i), 2 * n); else mkJ(A, c, i, rep);
+	if (al != 3) { if (mixed || aa) wwCopy(B, AFF(c, j), 2 * n); else mkJ(B, c, j, rep); }
+	switch (op)
+	{
+	case 0: ecAdd(C, A, B, ec, st); break;
+	case 1: ecSub(C, A, B, ec, st); break;
+	case 2: ecAddA(C, A, B, ec, st); break;
+	case 3: ecSubA(C, A, B, ec, st); break;
+	case 4: ok = ecpAddAA(C, A, B, ec, stk(ecpAddAA_deep(n, c->f->deep))); break;
+	case 5: ok = ecpSubAA(C, A, B, ec, stk(ecpSubAA_deep(n, c->f->deep))); break;
+	}
+	if (aa) { if (ok) wwCopy(out, C, 2 * n), r = 1; }
+	else r = ecToA(out, C, ec, st) ? 1 : 0;
+	if (al == 0 || al == 3) free(C);
+	if (al != 3) free(B);
+	free(A);
+	return r;
+}
 static void do_pairs(const curve_t* c)
 {
-	static const char* OPS[6] = { "addJ", "subJ", "addAJ", "subAJ", "addAA", "subAA" };
-	static const char* ALS[4] = { "none", "c=a", "c=b", "a=b" };
-	const size_t n = c->n; const ec_o* ec = c->ec; void* st = ecstk(c);
 	const int N = (int)c->npts + 1;
 	long long* row = (long long*)xalloc(N * sizeof(long long));
-	int op, al, rep, i, j;
+	word* out = WALLOC(2 * c->n);
+	int op, al, rep, i, j, r;
 	for (op = 0; op < 6; ++op)
 	for (al = 0; al < 4; ++al)
 	for (rep = 0; rep < 2; ++rep)
 	{
-		const int mixed = op == 2 || op == 3, aa = op >= 4;
-		const size_t na = aa ? 2 * n : 3 * n;                   /* words of operand a */
-		const size_t nb = (mixed || aa) ? 2 * n : 3 * n;        /* words of operand b */
-		const size_t nc = aa ? 2 * n : 3 * n;
-		if (aa && rep) continue;
-		if (mixed && al == 3) continue;                          /* a projective, b affine: never the same buffer */
+		if (pair_call(c, op, al, rep, 1, 1, out) == -9) continue;
 		if (al == 3)
 		{
-			/* a and b are the same buffer, c distinct: the diagonal */
-			word* A = WALLOC(na); word* C = WALLOC(nc);
-			row_begin(c, OPS[op], ALS[al], rep); jInt("diag", 1);
+			row_begin(c, POPS[op], PALS[al], rep); jInt("diag", 1);
 			for (i = 0; i < N; ++i)
-			{
-				if (aa && i == 0) { row[i] = -9; continue; }
-				if (aa)
-				{
-					bool_t r;
-					wwCopy(A, AFF(c, i), 2 * n);
-					r = op == 4 ? ecpAddAA(C, A, A, ec, stk(ecpAddAA_deep(n, c->f->deep))) :
-						ecpSubAA(C, A, A, ec, stk(ecpSubAA_deep(n, c->f->deep)));
-					row[i] = r ? lookup(c, C) : 0;
-				}
-				else
-				{
-					mkJ(A, c, i, rep);
-					if (op == 0) ecAdd(C, A, A, ec, st); else ecSub(C, A, A, ec, st);
-					row[i] = idxJ(c, C);
-				}
-			}
+				r = pair_call(c, op, al, rep, i, i, out), row[i] = r == 1 ? lookup(c, out) : r;
 			row_end(row, N);
-			free(A); free(C);
 			continue;
 		}
 		for (i = 0; i < N; ++i)
 		{
-			if (aa && i == 0) continue;
-			row_begin(c, OPS[op], ALS[al], rep); jInt("i", i);
+			if (pair_call(c, op, al, rep, i, 1, out) == -9) continue;
+			row_begin(c, POPS[op], PALS[al], rep); jInt("i", i);
 			for (j = 0; j < N; ++j)
-			{
-				/* fresh exact-size buffers for each call: c = b needs room for the result in b's buffer */
-				word* A = WALLOC(al == 1 ? (na > nc ? na : nc) : na);
-				word* B = WALLOC(al == 2 ? (nb > nc ? nb : nc) : nb);
-				word* C = al == 0 ? WALLOC(nc) : (al == 1 ? A : B);
-				if ((mixed || aa) && j == 0) { row[j] = -9; goto next; }
-				if (aa) wwCopy(A, AFF(c, i), 2 * n); else mkJ(A, c, i, rep);
-				if (mixed || aa) wwCopy(B, AFF(c, j), 2 * n); else mkJ(B, c, j, rep);
-				switch (op)
-				{
-				case 0: ecAdd(C, A, B, ec, st); row[j] = idxJ(c, C); break;
-				case 1: ecSub(C, A, B, ec, st); row[j] = idxJ(c, C); break;
-				case 2: ecAddA(C, A, B, ec, st); row[j] = idxJ(c, C); break;
-				case 3: ecSubA(C, A, B, ec, st); row[j] = idxJ(c, C); break;
-				case 4: row[j] = ecpAddAA(C, A, B, ec, stk(ecpAddAA_deep(n, c->f->deep))) ? lookup(c, C) : 0; break;
-				case 5: row[j] = ecpSubAA(C, A, B, ec, stk(ecpSubAA_deep(n, c->f->deep))) ? lookup(c, C) : 0; break;
-				}
-			next:
-				if (al == 0) free(C);
-				free(A); free(B);
-			}
+				r = pair_call(c, op, al, rep, i, j, out), row[j] = r == 1 ? lookup(c, out) : r;
 			row_end(row, N);
 		}
 	}
-	free(row);
+	free(row); free(out);
 }
 
-/* unary: neg, dbl, tpl (J), dblA (affine -> J), negA (affine), fromA/toA round trip */
+/* unary: neg, dbl, tpl (J), dblA (affine -> J), negA (affine), fromA/toA round trip; al 1 = output over the input */
+static const char* UOPS[6] = { "negJ", "dblJ", "tplJ", "dblAJ", "negA", "fromAtoA" };
+static int unary_call(const curve_t* c, int op, int al, int rep, int i, word* out)
+{
+	const size_t n = c->n; const ec_o* ec = c->ec; void* st = ecstk(c);
+	const int affin = op >= 3;
+	const size_t na = affin ? (al && op != 4 ? 3 * n : 2 * n) : 3 * n;
+	word *A, *B; int r;
+	if (affin && (rep || i == 0)) return -9;
+	A = WALLOC(na);
+	B = al ? A : WALLOC(op == 4 ? 2 * n : 3 * n);
+	if (affin) wwCopy(A, AFF(c, i), 2 * n); else mkJ(A, c, i, rep);
+	switch (op)
+	{
+	case 0: ecNeg(B, A, ec, st); break;
+	case 1: ecDbl(B, A, ec, st); break;
+	case 2: ec->tpl(B, A, ec, st); break;
+	case 3: ecDblA(B, A, ec, st); break;
+	case 4: ecpNegA(B, A, ec); break;
+	case 5: ecFromA(B, A, ec, st); break;
+	}
+	if (op == 4) wwCopy(out, B, 2 * n), r = 1;
+	else if (op == 5 && al) { r = ecToA(B, B, ec, st) ? 1 : 0; if (r) wwCopy(out, B, 2 * n); }
+	else r = ecToA(out, B, ec, st) ? 1 : 0;
+	if (!al) free(B);
+	free(A);
+	return r;
+}
 static void do_unary(const curve_t* c)
 {
-	static const char* OPS[6] = { "negJ", "dblJ", "tplJ", "dblAJ", "negA", "fromAtoA" };
-	const size_t n = c->n; const ec_o* ec = c->ec; void* st = ecstk(c);
 	const int N = (int)c->npts + 1;
 	long long* row = (long long*)xalloc(N * sizeof(long long));
-	int op, al, rep, i;
+	word* out = WALLOC(2 * c->n);
+	int op, al, rep, i, r;
 	for (op = 0; op < 6; ++op)
 	for (al = 0; al < 2; ++al)
 	for (rep = 0; rep < 2; ++rep)
 	{
-		const int affin = op >= 3;
-		if (affin && rep) continue;
-		row_begin(c, OPS[op], al ? "b=a" : "none", rep);
+		if (unary_call(c, op, al, rep, 1, out) == -9) continue;
+		row_begin(c, UOPS[op], al ? "b=a" : "none", rep);
 		for (i = 0; i < N; ++i)
-		{
-			const size_t na = affin ? (al && op != 4 ? 3 * n : 2 * n) : 3 * n;
-			word* A; word* B;
-			if (affin && i == 0) { row[i] = -9; continue; }
-			A = WALLOC(na);
-			B = al ? A : WALLOC(op == 4 ? 2 * n : 3 * n);
-			if (affin) wwCopy(A, AFF(c, i), 2 * n); else mkJ(A, c, i, rep);
-			switch (op)
-			{
-			case 0: ecNeg(B, A, ec, st); row[i] = idxJ(c, B); break;
-			case 1: ecDbl(B, A, ec, st); row[i] = idxJ(c, B); break;
-			case 2: ec->tpl(B, A, ec, st); row[i] = idxJ(c, B); break;
-			case 3: ecDblA(B, A, ec, st); row[i] = idxJ(c, B); break;
-			case 4: ecpNegA(B, A, ec); row[i] = lookup(c, B); break;
-			case 5:
-				if (!ecFromA(B, A, ec, st)) { row[i] = -3; break; }
-				if (al) row[i] = ecToA(B, B, ec, st) ? lookup(c, B) : 0;
-				else row[i] = idxJ(c, B);
-				break;
-			}
-			if (!al) free(B);
-			free(A);
-		}
+			r = unary_call(c, op, al, rep, i, out), row[i] = r == 1 ? lookup(c, out) : r;
 		row_end(row, N);
 	}
-	free(row);
+	free(row); free(out);
 }
 
 /* scalar k (+ the registered multiple of the order of length mo when hi) in m = W_OF_O(mo) words */
@@ -449,6 +443,364 @@ static void do_swu(const curve_t* c)
 	free(row);
 }
 
+/* ================================================================== record direction: self-contained lines */
+static void jArr16(const octet* o, size_t no)
+{
+	size_t i;
+	fputc('[', vx_out);
+	for (i = 0; i + 1 < no; i += 2) fprintf(vx_out, i ? ",%u" : "%u", o[i] | (o[i + 1] << 8));
+	if (no & 1) fprintf(vx_out, no > 1 ? ",%u" : "%u", o[no - 1]);
+	fputc(']', vx_out);
+}
+/* affine point in internal representation (0 = O) as [[x limbs],[y limbs]] or [] */
+static void jP(const char* k, const curve_t* c, const word* aff)
+{
+	octet o[80];
+	jSep(); fprintf(vx_out, "\"%s\":[", k);
+	if (aff)
+	{
+		qrTo(o, aff, c->f, stk(c->f->deep)); jArr16(o, c->no); fputc(',', vx_out);
+		qrTo(o, aff + c->n, c->f, stk(c->f->deep)); jArr16(o, c->no);
+	}
+	fputc(']', vx_out);
+}
+static void jPi(const char* k, const curve_t* c, int idx) { jP(k, c, idx ? AFF(c, idx) : 0); }
+static void jF(const char* k, const curve_t* c, const word* a)
+{
+	octet o[80];
+	qrTo(o, a, c->f, stk(c->f->deep)); jLimbs16(k, o, c->no);
+}
+static void rec_begin(const curve_t* c, const char* op)
+{
+	octet o[80];
+	jBegin(); jStr("op", op); jStr("cv", c->name);
+	wwTo(o, c->no, c->f->mod); jLimbs16("p", o, c->no);
+	jF("A", c, c->ec->A); jF("B", c, c->ec->B);
+}
+/* d[mo octets] = k + ord * T, T a seeded number that fills the remaining bits (hi) or 0 */
+static void big_scalar(octet* d, size_t mo, unsigned long long ord, unsigned long long k, int hi)
+{
+	size_t i, tb; unsigned long long carry; int ob = 0;
+	octet t[64];
+	memset(d, 0, mo); memset(t, 0, sizeof(t));
+	while ((ord >> ob) != 0) ++ob;
+	if (hi && mo * 8 > (size_t)ob + 10)
+	{
+		tb = mo * 8 - ob - 2;
+		vxRandBuf(t, mo);
+		for (i = tb; i < mo * 8; ++i) t[i / 8] &= (octet)~(1u << (i % 8));
+		t[(tb - 1) / 8] |= (octet)(1u << ((tb - 1) % 8));
+	}
+	for (i = 0, carry = k; i < mo; ++i)
+	{
+		carry += (unsigned long long)t[i] * ord;
+		d[i] = (octet)carry; carry >>= 8;
+	}
+}
+static void rec_pairs(const curve_t* c, int all_ops)
+{
+	const int N = (int)c->npts + 1;
+	word* out = WALLOC(2 * c->n);
+	int i, j, op, r;
+	for (i = 0; i < N; ++i)
+	for (j = 0; j < N; ++j)
+	for (op = 0; op < 6; ++op)
+	{
+		int al = (i + 2 * j + op) % 4, rep = (i + j + op) % 2;
+		if (!all_ops && op != (i + 3 * j) % 6) continue;
+		if (op >= 4) rep = 0;
+		r = pair_call(c, op, al, rep, i, j, out);
+		if (r == -9) { al = (i + j) % 3; r = pair_call(c, op, al, rep, i, j, out); }
+		if (r == -9) continue;
+		rec_begin(c, "pair"); jStr("f", POPS[op]); jStr("al", PALS[al]); jInt("rep", rep);
+		jPi("P", c, i); jPi("Q", c, j); jP("R", c, r ? out : 0); jEnd();
+	}
+	free(out);
+}
+static void rec_unary(const curve_t* c)
+{
+	const int N = (int)c->npts + 1;
+	word* out = WALLOC(2 * c->n);
+	int i, op, al, r;
+	for (i = 0; i < N; ++i)
+	for (op = 0; op < 6; ++op)
+	for (al = 0; al < 2; ++al)
+	{
+		int rep = (i + op + al) % 2;
+		if (op >= 3) rep = 0;
+		r = unary_call(c, op, al, rep, i, out);
+		if (r == -9) continue;
+		rec_begin(c, "unary"); jStr("f", UOPS[op]); jStr("al", al ? "b=a" : "none"); jInt("rep", rep);
+		jPi("P", c, i); jP("R", c, r ? out : 0); jEnd();
+	}
+	free(out);
+}
+/* scalar multiples on a group of small known order: d = k + ord * T in mo octets */
+static void rec_mulsub(const curve_t* c, int every)
+{
+	static const size_t MO[3] = { 8, 16, 48 };
+	const size_t n = c->n;
+	const int N = (int)c->npts;
+	long long k; int i, t = 0;
+	word* b = WALLOC(2 * n);
+	for (i = 1; i <= N; i += every)
+	for (k = 0; k <= 2 * c->iord + 2; ++k, ++t)
+	{
+		const size_t mo = MO[t % 3], m = W_OF_O(mo);
+		const int hi = (t / 3) % 2;
+		octet d[64]; word* dw = WALLOC(m); bool_t r;
+		big_scalar(d, mo, (unsigned long long)c->iord, (unsigned long long)k, hi);
+		wwFrom(dw, d, mo);
+		r = ecMulA(b, AFF(c, i), c->ec, dw, m, stk(ecMulA_deep(n, c->ec->d, c->ec->deep, m)));
+		rec_begin(c, "mulsub"); jInt("ord", c->iord); jLimbs16("d", d, mo); jPi("P", c, i); jP("R", c, r ? b : 0); jEnd();
+		if (k >= 1 && (t % 4) == 0)
+		{
+			r = ecHasOrderA(AFF(c, i), c->ec, dw, m, stk(ecHasOrderA_deep(n, c->ec->d, c->ec->deep, m)));
+			rec_begin(c, "hasordersub"); jInt("ord", c->iord); jLimbs16("d", d, mo); jPi("P", c, i); jBool("res", r); jEnd();
+		}
+		if ((t % 5) == 0 && i < N)
+		{
+			/* d P_i + (k+1) P_{i+1} */
+			word e2 = (word)(k + 1);
+			r = ecAddMulA(b, c->ec, stk(ecAddMulA_deep(n, c->ec->d, c->ec->deep, 2, m, (size_t)1)), 2,
+				AFF(c, i), dw, m, AFF(c, i + 1), &e2, (size_t)1);
+			rec_begin(c, "addmulsub"); jInt("ord", c->iord); jLimbs16("d", d, mo); jInt("e", k + 1);
+			jPi("P", c, i); jPi("Q", c, i + 1); jP("R", c, r ? b : 0); jEnd();
+		}
+		free(dw);
+	}
+	free(b);
+}
+/* ecpIsOnA on raw coordinates (plain rings: the words are the numbers): all (x, y) in [0, lim)^2 for one-word p */
+static void rec_ison_small(const curve_t* c, long long lim)
+{
+	long long x, y, ys[8]; size_t cnt;
+	for (x = 0; x < lim; ++x)
+	{
+		for (cnt = 0, y = 0; y < lim; ++y)
+		{
+			word* a = WALLOC(2);
+			a[0] = (word)x; a[1] = (word)y;
+			if (ecpIsOnA(a, c->ec, stk(ecpIsOnA_deep(1, c->f->deep))) && cnt < 8) ys[cnt++] = y;
+			free(a);
+		}
+		rec_begin(c, "isonrow"); jInt("x", x); jInt("lim", lim); jIntArr("ys", ys, cnt); jEnd();
+	}
+}
+/* ecpIsOnA on listed points and on coordinates moved out of the field (x = p, x + p if it fits, all-ones) */
+static void rec_ison_big(const curve_t* c)
+{
+	const size_t n = c->n; int i, v;
+	for (i = 1; i <= (int)c->npts; ++i)
+	for (v = 0; v < 6; ++v)
+	{
+		word* a = WALLOC(2 * n); bool_t r; octet o[160];
+		wwCopy(a, AFF(c, i), 2 * n);
+		switch (v)
+		{
+		case 1: wwCopy(a, c->f->mod, n); break;                                  /* x = p */
+		case 2: wwCopy(a + n, c->f->mod, n); break;                              /* y = p */
+		case 3: if (zzAdd2(a, c->f->mod, n)) { free(a); continue; } break;       /* x + p */
+		case 4: wwCopy(a + n, c->f->unity, n); break;                            /* y = 1 */
+		case 5: memset(a, 0xFF, O_OF_W(n)); break;                               /* x = B^n - 1 */
+		}
+		/* the raw words are what the function sees: a word vector >= p is logged as such, everything else as the
+		   field element it denotes (Montgomery ring: qrTo) */
+		r = ecpIsOnA(a, c->ec, stk(ecpIsOnA_deep(n, c->f->deep)));
+		rec_begin(c, "isonraw"); jInt("v", v);
+		if (v == 1 || v == 3 || v == 5) { wwTo(o, O_OF_W(n), a); jLimbs16("x", o, O_OF_W(n)); } else jF("x", c, a);
+		if (v == 2) { wwTo(o, O_OF_W(n), a + n); jLimbs16("y", o, O_OF_W(n)); } else jF("y", c, a + n);
+		jInt("outside", v == 1 || v == 2 || v == 3 || v == 5); jBool("res", r); jEnd();
+		free(a);
+	}
+}
+static void rec_swu(const curve_t* c)
+{
+	long long p = (long long)c->f->mod[0], s;
+	for (s = 0; s < p; ++s)
+	{
+		word* a = WALLOC(c->n); word* b = WALLOC(2 * c->n);
+		octet o[8]; size_t t;
+		for (t = 0; t < c->no; ++t) o[t] = (octet)(s >> (8 * t));
+		qrFrom(a, o, c->f, stk(c->f->deep));
+		ecpSWU(b, a, c->ec, stk(ecpSWU_deep(c->n, c->f->deep)));
+		rec_begin(c, "swu"); jF("s", c, a); jP("R", c, b); jEnd();
+		free(a); free(b);
+	}
+}
+/* a complete small curve y^2 = x^3 + A x + B over GF(p): the points are found with plain integer arithmetic */
+static int small_curve(curve_t* c, const char* name, unsigned p, unsigned A, unsigned B)
+{
+	octet po[2], ao[2], bo[2]; size_t no = p < 256 ? 1 : 2, cnt = 0;
+	octet* pts = (octet*)xalloc((size_t)2 * p * 2 * no + 4);
+	unsigned x, y; octet ord[4];
+	po[0] = (octet)p; po[1] = (octet)(p >> 8); ao[0] = (octet)A; ao[1] = (octet)(A >> 8); bo[0] = (octet)B; bo[1] = (octet)(B >> 8);
+	for (x = 0; x < p; ++x)
+	for (y = 0; y < p; ++y)
+		if ((y * y) % p == ((x * x % p * x) % p + A * x % p + B) % p)
+		{
+			pts[2 * no * cnt] = (octet)x; pts[2 * no * cnt + no] = (octet)y;
+			if (no == 2) pts[2 * no * cnt + 1] = (octet)(x >> 8), pts[2 * no * cnt + 3] = (octet)(y >> 8);
+			++cnt;
+		}
+	if (!curve_create(c, name, no, po, ao, bo) || !curve_points(c, pts, cnt)) { free(pts); return 0; }
+	free(pts);
+	c->iord = (long long)cnt + 1;
+	ord[0] = (octet)c->iord; ord[1] = (octet)(c->iord >> 8); ord[2] = ord[3] = 0;
+	return ecCreateGroup(c->ec, c->oct, c->oct + no, ord, 4, 1, stk(ecCreateGroup_deep(c->f->deep)));
+}
+/* the subgroup generated by (x, y) (little-endian hex): listed by repeated ecpAddAA until O */
+static int sub_curve(curve_t* c, const char* name, const char* ph, const char* ah, const char* bh, const char* xh, const char* yh, int ord)
+{
+	const size_t no = strlen(ph) / 2, n = W_OF_O(no);
+	octet po[80], ao[80], bo[80]; octet* pts = (octet*)xalloc((size_t)ord * 2 * no);
+	word* g = WALLOC(2 * n); word* t = WALLOC(2 * n); int cnt = 1; octet o4[4];
+	hexTo(po, ph); hexTo(ao, ah); hexTo(bo, bh); hexTo(pts, xh); hexTo(pts + no, yh);
+	if (!curve_create(c, name, no, po, ao, bo)) return 0;
+	qrFrom(g, pts, c->f, stk(c->f->deep)); qrFrom(g + n, pts + no, c->f, stk(c->f->deep));
+	wwCopy(t, g, 2 * n);
+	while (cnt < ord - 1 && ecpAddAA(t, t, g, c->ec, stk(ecpAddAA_deep(n, c->f->deep))))
+	{
+		qrTo(pts + 2 * no * cnt, t, c->f, stk(c->f->deep)); qrTo(pts + 2 * no * cnt + no, t + n, c->f, stk(c->f->deep));
+		++cnt;
+	}
+	free(g); free(t);
+	if (!curve_points(c, pts, (size_t)cnt)) { free(pts); return 0; }
+	free(pts);
+	c->iord = ord;
+	o4[0] = (octet)ord; o4[1] = o4[2] = o4[3] = 0;
+	return ecCreateGroup(c->ec, c->oct, c->oct + no, o4, 4, 1, stk(ecCreateGroup_deep(c->f->deep)));
+}
+
+/* ---- the standard bign curves: boundary scalars, value lines (a few) and law lines (volume) */
+static void jW(const char* k, const word* w, size_t m) { octet o[200]; wwTo(o, O_OF_W(m), w); jLimbs16(k, o, O_OF_W(m)); }
+static int mulG(const curve_t* c, word* r, const word* base, const word* d, size_t m)
+{
+	return ecMulA(r, base, c->ec, d, m, stk(ecMulA_deep(c->n, c->ec->d, c->ec->deep, m)));
+}
+static void rec_mul_line(const curve_t* c, const char* cls, const word* base, const word* d, size_t m, int heavy)
+{
+	word* r = WALLOC(2 * c->n); int ok = mulG(c, r, base, d, m);
+	rec_begin(c, "mul"); jStr("cls", cls); jInt("heavy", heavy); jW("d", d, m); jP("P", c, base); jP("R", c, ok ? r : 0); jEnd();
+	free(r);
+}
+static void rec_std(const char* name, size_t l, const octet* p, const octet* a, const octet* b, const octet* q, const octet* yG, int nheavy, int nlaws)
+{
+	static curve_t C; curve_t* c = &C;
+	const size_t no = l / 4, n = W_OF_O(no), n1 = W_OF_O(no + 8);    /* n1: a scalar 8 octets longer than q (any word size) */
+	word* G; word* d = WALLOC(n1); word* e = WALLOC(n1); word* qw = WALLOC(n1);
+	word* r1 = WALLOC(2 * n); word* r2 = WALLOC(2 * n); word* P = WALLOC(2 * n);
+	int t, ok1, ok2;
+	if (!curve_create(c, name, no, p, a, b) ||
+		!ecCreateGroup(c->ec, 0, yG, q, no, 1, stk(ecCreateGroup_deep(c->f->deep)))) { fprintf(stderr, "%s: cannot create\n", name); exit(4); }
+	G = c->ec->base;
+	wwSetZero(qw, n1); wwFrom(qw, q, no);
+	rec_begin(c, "group"); jLimbs16("q", q, no); jP("P", c, G);
+	jBool("valid", ecpIsValid(c->ec, stk(ecpIsValid_deep(n, c->f->deep))));
+	jBool("seems", ecpSeemsValidGroup(c->ec, stk(ecpSeemsValidGroup_deep(n, c->f->deep))));
+	jBool("ison", ecpIsOnA(G, c->ec, stk(ecpIsOnA_deep(n, c->f->deep)))); jEnd();
+	/* boundary scalars: 0, 1, 2 (cheap for the specification), q-1, q, q+1, 2^|q|, seeded n+1 words (heavy) */
+	wwSetZero(d, n1); rec_mul_line(c, "0", G, d, n, 0);
+	d[0] = 1; rec_mul_line(c, "1", G, d, n, 0); rec_mul_line(c, "1:8 octets", G, d, W_OF_O(8), 0);
+	d[0] = 2; rec_mul_line(c, "2", G, d, n1, 0);
+	d[0] = 3; rec_mul_line(c, "3", G, d, W_OF_O(8), 0);
+	t = 0;
+	wwCopy(d, qw, n1); zzSubW2(d, n1, 1); if (t++ < nheavy) rec_mul_line(c, "q-1", G, d, n, 1);
+	wwSetZero(d, n1); vxRandBuf(d, no); if (t++ < nheavy) rec_mul_line(c, "seeded", G, d, n, 1);
+	wwSetZero(d, n1); d[n] = 1; if (t++ < nheavy) rec_mul_line(c, "2^|q|", G, d, n1, 1);
+	wwCopy(d, qw, n1); zzAddW2(d, n1, 1); if (t++ < nheavy) rec_mul_line(c, "q+1", G, d, n, 1);
+	vxRandBuf(d, no + 8); if (t++ < nheavy) rec_mul_line(c, "seeded:m=n+1", G, d, n1, 1);
+	/* q G = O: reported as FALSE by ecMulA, TRUE by ecHasOrderA */
+	ok1 = mulG(c, r1, G, qw, n); ok2 = ecHasOrderA(G, c->ec, qw, n, stk(ecHasOrderA_deep(n, c->ec->d, c->ec->deep, n)));
+	rec_begin(c, "law_order"); jLimbs16("q", q, no); jP("P", c, G); jBool("mul_affine", ok1); jBool("hasorder", ok2);
+	ok1 = mulG(c, r1, G, qw, n1); jBool("mul_affine_m1", ok1); jEnd();
+	/* laws on seeded scalars and a seeded base point P = k0 G */
+	for (t = 0; t < nlaws; ++t)
+	{
+		const word* base = G; size_t m = (t % 3 == 2) ? n1 : n;
+		if (t % 2) { wwSetZero(e, n1); vxRandBuf(e, no); zzMod(e, e, n, qw, n, stk(zzMod_deep(n, n))); mulG(c, P, G, e, n); base = P; }
+		/* (k+1) P = k P + P, k at a boundary or seeded */
+		switch (t % 5)
+		{
+		case 0: wwSetZero(d, n1); vxRandBuf(d, no); break;
+		case 1: wwCopy(d, qw, n1); zzSubW2(d, n1, 2); break;               /* q-2 -> q-1 */
+		case 2: wwCopy(d, qw, n1); zzSubW2(d, n1, 1); break;               /* q-1 -> q (= O) */
+		case 3: wwCopy(d, qw, n1); break;                                      /* q (= O) -> q+1 (= P) */
+		default: wwSetZero(d, n1); vxRandBuf(d, no / 2 + 1); break;     /* half length */
+		}
+		wwCopy(e, d, n1); zzAddW2(e, n1, 1);
+		ok1 = mulG(c, r1, base, d, m); ok2 = mulG(c, r2, base, e, m);
+		rec_begin(c, "law_succ"); jW("d", d, m); jW("e", e, m); jP("P", c, base); jP("R1", c, ok1 ? r1 : 0); jP("R2", c, ok2 ? r2 : 0); jEnd();
+		/* (q - k) P = -(k P) for 0 < k < q */
+		wwSetZero(d, n1); vxRandBuf(d, no); zzMod(d, d, n, qw, n, stk(zzMod_deep(n, n)));
+		if (t % 4 == 1) wwSetW(d, n1, 1);
+		if (wwIsZero(d, n)) d[0] = 5;
+		wwSetZero(e, n1); zzSub(e, qw, d, n);
+		ok1 = mulG(c, r1, base, d, n); ok2 = mulG(c, r2, base, e, n);
+		rec_begin(c, "law_neg"); jLimbs16("q", q, no); jW("d", d, n); jW("e", e, n); jP("P", c, base); jP("R1", c, ok1 ? r1 : 0); jP("R2", c, ok2 ? r2 : 0); jEnd();
+		/* d1 G + d2 P = (d1 + d2 k0) G: recorded as the sum of two recorded multiples */
+		if (t % 2)
+		{
+			word* s1 = WALLOC(2 * n); word* s2 = WALLOC(2 * n); word* s3 = WALLOC(2 * n); int o1, o2, o3;
+			wwSetZero(d, n1); vxRandBuf(d, no); wwSetZero(e, n1); vxRandBuf(e, no);
+			if (t % 4 == 3) wwSetZero(e, n), e[0] = 1;
+			o1 = mulG(c, s1, G, d, n); o2 = mulG(c, s2, P, e, n);
+			o3 = ecAddMulA(s3, c->ec, stk(ecAddMulA_deep(n, c->ec->d, c->ec->deep, 2, n, n)), 2, G, d, n, P, e, n);
+			rec_begin(c, "law_addmul"); jP("R1", c, o1 ? s1 : 0); jP("R2", c, o2 ? s2 : 0); jP("R", c, o3 ? s3 : 0); jEnd();
+			free(s1); free(s2); free(s3);
+		}
+	}
+	free(d); free(e); free(qw); free(r1); free(r2); free(P);
+	curve_free(c);
+}
+
+static int run_record(const char* tier)
+{
+	static curve_t C;
+	const int suite = strcmp(tier, "suite") == 0, thorough = strcmp(tier, "thorough") == 0;
+	bign_params bp[1];
+	/* (A) a complete small curve */
+	if (small_curve(&C, suite ? "p11a" : "p23a", suite ? 11 : 23, suite ? 8 : 1, suite ? 0 : 2))
+	{
+		rec_pairs(&C, suite || thorough); rec_unary(&C); rec_mulsub(&C, suite ? 4 : 3); rec_ison_small(&C, suite ? 16 : 32);
+		if (!suite) rec_swu(&C);
+		curve_free(&C);
+	}
+	if (suite && small_curve(&C, "p19a", 19, 16, 9)) { rec_swu(&C); rec_unary(&C); curve_free(&C); }
+	if (thorough && small_curve(&C, "p67a", 67, 64, 1)) { rec_pairs(&C, 0); rec_unary(&C); rec_swu(&C); curve_free(&C); }
+	/* (B) subgroups of order 7 / 5 over multi-word primes (parameters computed by spec/gen/Gen_ECSmall.tla) */
+	if (sub_curve(&C, "b192cn7a3", "13FFFFFFFFFFFFFFFFFFFFFFFFFFFFFFFFFFFFFFFFFFFFFF", "10FFFFFFFFFFFFFFFFFFFFFFFFFFFFFFFFFFFFFFFFFFFFFF",
+		"5B4A5E9D42C31B66A3148B86D3E5455967D4F275AE127843", "8351587DB599528797D22CBDDDD63DBFE0946F6CF48A356F",
+		"0E6F72C45AECA59E6C463380A61280CB9A73C8F3B4658A6C", 7))
+	{
+		rec_pairs(&C, !suite); rec_unary(&C); rec_mulsub(&C, suite ? 3 : 2); rec_ison_big(&C);
+		curve_free(&C);
+	}
+	if (sub_curve(&C, "b192mn5", "0F916FC7105DB7F9DA717E16DA8CF4CE530DAC7EB17728C7", "F4906FC7105DB7F9DA717E16DA8CF4CE530DAC7EB17728C7",
+		"36D800000000000000000000000000000000000000000000", "FA906FC7105DB7F9DA717E16DA8CF4CE530DAC7EB17728C7",
+		"37906FC7105DB7F9DA717E16DA8CF4CE530DAC7EB17728C7", 5))
+	{
+		rec_pairs(&C, !suite); rec_unary(&C); rec_mulsub(&C, 2); rec_ison_big(&C);
+		curve_free(&C);
+	}
+	if (!suite && sub_curve(&C, "b128n7", "1F25DD990495199FE9A67A8EE26BADEB", "8417DD990495199FE9A67A8EE26BADEB",
+		"B6D80100000000000000000000000000", "F224DD990495199FE9A67A8EE26BADEB", "6F23DD990495199FE9A67A8EE26BADEB", 7))
+	{
+		rec_pairs(&C, 0); rec_unary(&C); rec_mulsub(&C, 3); rec_ison_big(&C);
+		curve_free(&C);
+	}
+	/* (C) the standard curves */
+	if (bignParamsStd(bp, "1.2.112.0.2.0.34.101.45.3.1") == ERR_OK)
+		rec_std("bign128", bp->l, bp->p, bp->a, bp->b, bp->q, bp->yG, suite ? 0 : (thorough ? 5 : 2), suite ? 4 : (thorough ? 40 : 10));
+	if (bign96ParamsStd(bp, "1.2.112.0.2.0.34.101.45.3.0") == ERR_OK)
+		rec_std("bign96", bp->l, bp->p, bp->a, bp->b, bp->q, bp->yG, thorough ? 5 : 0, suite ? 4 : (thorough ? 40 : 10));
+	if (bignParamsStd(bp, "1.2.112.0.2.0.34.101.45.3.2") == ERR_OK)
+		rec_std("bign192", bp->l, bp->p, bp->a, bp->b, bp->q, bp->yG, thorough ? 3 : 0, suite ? 2 : (thorough ? 30 : 6));
+	if (bignParamsStd(bp, "1.2.112.0.2.0.34.101.45.3.3") == ERR_OK)
+		rec_std("bign256", bp->l, bp->p, bp->a, bp->b, bp->q, bp->yG, thorough ? 2 : 0, suite ? 2 : (thorough ? 30 : 6));
+	return 0;
+}
+
 static int run_exec(void)
 {
 	static curve_t C;
@@ -508,6 +860,7 @@ int main(int argc, char** argv)
 	if (getenv("VERIF_FILL")) FILL = atoi(getenv("VERIF_FILL"));
 	if (getenv("VERIF_STACK_SLACK")) SLACK = (size_t)atoi(getenv("VERIF_STACK_SLACK"));
 	if (argc >= 2 && strcmp(argv[1], "exec") == 0) return run_exec();
-	fprintf(stderr, "usage: drv_ec exec | record <tier>\n");
+	if (argc >= 3 && strcmp(argv[1], "record") == 0) return run_record(argv[2]);
+	fprintf(stderr, "usage: drv_ec exec | record <suite|quick|thorough>\n");
 	return 2;
 }
